@@ -1,6 +1,6 @@
 (* Properties_C05.v — C05: end of input is always detected; a truncated input yields only complete values.
    Only statements live here. *)
-Require Import Base Cbor DecoderModel DecoderProofs Schema Block Exporter E2ESpec BlockRead FileProofs TruncProofs.
+Require Import Base Cbor DecoderModel DecoderProofs Schema Block Exporter E2ESpec BlockRead FileProofs TruncProofs Exporter HistoryCuts.
 Local Open Scope N_scope.
 
 (* The physical decoder (window of any size B > 0 refilled from the stream, any window fill, any stream state
@@ -64,6 +64,21 @@ Theorem C05_truncated_file : forall pre bs g q t, typed_pre pre -> bs <> [] -> F
      inl EEnd).
 Proof. exact truncated_file. Qed.
 Print Assumptions C05_truncated_file.
+
+(* ... and for the outputs of histories: every output of every admissible in-range exporter history - those closed by rotations and the one
+   destruction closes - cut at EVERY point reads as exactly the blocks wholly contained in the prefix, then end of input *)
+Theorem C05_truncated_outputs_of_histories : forall pre ops, typed_pre pre -> adm0 pre ops -> typed_x (xrun (x_new pre) ops) ->
+  let x := xrun (x_new pre) ops in
+  exists (last : val) cur closed,
+    x_closed x = map (fun pb => file_bytes (fst pb) (snd pb)) closed /\ destroy x = file_bytes last cur /\
+    forall p bs, In (p, bs) ((last, cur) :: closed) -> bs <> [] ->
+    forall g q t, (length (file_bytes p bs) <= g)%nat -> file_bytes p bs = q ++ t -> t <> [] ->
+      read_prefix g q =
+        (map rb_of (firstn (if (length (hdr_bytes p) <=? length q)%nat
+                            then whole (map (fun b => length (blk_bytes b)) bs) (length q - length (hdr_bytes p)) else 0%nat) bs),
+         inl EEnd).
+Proof. exact truncated_outputs_of_histories. Qed.
+Print Assumptions C05_truncated_outputs_of_histories.
 
 Example C05_nonvacuous :
   phys_inv 4 (mkPhys [] [] false) /\
